@@ -15,7 +15,7 @@ steps:
   ["silence", secs]        print nothing for secs
   ["mute", secs]           echo off and print nothing for secs
   ["exit", code]
-  ["shell", flavour, prompt]   interactive shell state (sh | csh | zsh | weird = accepts no prompt-setting command) until EOF/exit
+  ["shell", flavour, prompt]   interactive shell state (commands: echo text | rep N word | exit; prompt setters) (sh | csh | zsh | weird = accepts no prompt-setting command) until EOF/exit
 """
 import json
 import os
@@ -144,6 +144,11 @@ for st in script:
                 continue
             if line.startswith('echo '):
                 out(line[5:] + '\n')
+                continue
+            if line.startswith('rep '):
+                # rep N word: prints word-word-...-word (N times): output that differs from the tty echo of the command
+                _, n, w = line.split()
+                out('-'.join([w] * int(n)) + '\n')
                 continue
             out('sh: %s: command not found\n' % line.split()[0])
 note('end', '')
